@@ -53,17 +53,25 @@ Lemma w_run :
   f_size (fst st) = 32768 /\ f_chain (fst st) 1 = [16384].
 Proof. vm_compute. repeat split; reflexivity. Qed.
 
-(* ---- the empty counter name ---- *)
+(* ---- the empty counter name (fixed by 342cd17): rejected with its own
+        error before anything is read or written ---- *)
+Lemma empty_name_rejected : forall (nlen : name -> N) nm ops t, nlen nm = 0 ->
+  dispatch nlen (OpNew nm :: ops) t = dispatch nlen ops (push_res (RFail FEmpty) (set_cell 0 t)).
+Proof. intros nlen nm ops t E. cbn [dispatch]. rewrite E. reflexivity. Qed.
+
 Definition e_nlen (nm : name) : N := if nm =? 7 then 0 else 5.
 Definition e_st0 : state :=
   (empty_file, map (spawn e_nlen c_minFileLen) [[OpNew 7]; [OpNew 519]]).
 Definition e_sched : list nat := repeat 0%nat 12 ++ repeat 1%nat 12.
 
+(* the call with the empty name fails at once (the process is Done without a
+   step), nothing of bucket 7 is damaged: the other process gets its record *)
 Lemma e_run :
+  results_of e_st0 0%nat = [RFail FEmpty] /\ pc_of e_st0 0%nat = Some Done /\
   let st := run w_bucket e_nlen w_H e_sched e_st0 in
-  results_of st 0%nat = [RCell 2176] /\ results_of st 1%nat = [RFail FLimitWithin] /\
+  results_of st 0%nat = [RFail FEmpty] /\ results_of st 1%nat = [RCell 2176] /\
   f_chain (fst st) 7 = [2176] /\
-  option_map r_name (find_rec 2176 (f_recs (fst st))) = Some 7 /\ e_nlen 7 = 0.
+  option_map r_name (find_rec 2176 (f_recs (fst st))) = Some 519 /\ e_nlen 7 = 0.
 Proof. vm_compute. repeat split; reflexivity. Qed.
 
 (* ---- the other route to a survivor's errCorrupt: ten remaps do not catch up ----
